@@ -91,7 +91,19 @@ EXPLANATION = (
     "reaching the call the Mobile Allocation of an SI4 that came first is never decoded. C20.R10 (carriage downstream): for the constants "
     "of the SETFH call site the size passed to vsnprintf in trx_ctrl_cmd and the longest parameter text (digits by argument type, the "
     "text buffer by the bound C20.R5 proves) are folded; either the text always fits, or every truncating result rc in size..longest is "
-    "led to a negative return by the conditions behind the call (evaluated for each value, three-valued, conversions at the cast nodes).")
+    "led to a negative return by the conditions behind the call (evaluated for each value, three-valued, conversions at the cast nodes). "
+    "Two more rules follow the list at the decoder's callers. C20.R11 (the buffer the decoder reads): where a call site hands the decoder a struct "
+    "member in LV form (`cd->mob_alloc_lv + 1`, `cd->mob_alloc_lv[0]`, resolved on the caller's clang AST), every memcpy / memmove that fills that "
+    "member (the functions are found by the lexer, sliced and parsed like the callers; file-scope objects they name are declared opaquely from "
+    "clang's own diagnostics) is decided: its size, lowered to a term with tested temporaries resolved, must be a function of the source LV's "
+    "length octet alone and is folded for every length 1..8 that the dominating guard atoms admit (atoms that relate the octet to other values are "
+    "folded existentially over a finite box); size >= 1 + L, else the last bitmap octet -- bit indexes 0..7, the first cell-allocation channels -- "
+    "is decoded from stale buffer contents. C20.R12 (the return value): the witness fold yields the decoder's actual results (refusal, empty list, "
+    "non-empty list, with the value returned for each); at every call site the conditions over the result (discarded, tested in place, or held in "
+    "a local whose reaching definition is the call) are decided per result and prune the caller's CFG. A caller that decodes into its own locals "
+    "must keep a statement reading them reachable for every non-empty result, and no caller may handle a non-empty result exactly like a refusal "
+    "(same reachable readers of the output objects, same returns) while another decoded result is handled differently; a condition that cannot be "
+    "decided keeps both ways, which can only hide a violation, never make one.")
 ASSUMPTIONS = [
     "clang 14 parses the sliced function exactly as the layer23 build would (prelude models only declarations: stdint.h, EINVAL sign, struct gsm_sysinfo_freq {uint8_t mask;}, FREQ_TYPE_* values and array extents read from sysinfo.h, LOGP reduced to the evaluation of its value arguments)",
     "int is 32 bit: no counter in the function exceeds 2040, so machine arithmetic coincides with integer arithmetic",
@@ -104,6 +116,8 @@ ASSUMPTIONS = [
     "a function the decoder calls that has a definition in sysinfo.c -- or, when sysinfo.c includes sysinfo.h, an (inline) definition there -- is that definition (no other translation unit overrides it); integer conversions at its parameters / result are value preserving unless they narrow to a type smaller than int (then the call is not inlined)",
     "bitmap-derived bounds: the split of the v-octet bitmaps into 'no bit set' and 'bit p is the highest set bit' (p = 0 .. 8v-1) is exhaustive; within a case the bits below p are symbolic, so a local that evaluates to a concrete value in a case has that value for every bitmap of the case; it stands for that value only at statements from which none of its writes can be reached",
     "C20.R8 (witness fold): the interpreter in this module implements the C semantics of the constructs it accepts (integer conversions and arithmetic wrap in the widths of the parse target, signed >> is arithmetic, pointers are (object, offset) pairs that never leave their object unnoticed, a scalar whose address is taken is a one-element object, an unset object holds an indeterminate value that may be copied but not compared, branched on or used as an index); LOGP evaluates its value arguments and does nothing else; agreement on the witnesses is evidence for a decoder whose shape the structural rules do not recognise, not a proof for all inputs (the evidence records the structural proof as open)",
+    "C20.R11 (LV copies): every struct gsm48_rr_cd whose mob_alloc_lv is filled by a copy is rendered by gsm48_rr_render_ma afterwards (cd_now, cd_before, cd_after are), and the member does not already hold the bitmap that is copied; octet 0 of the source is the length of the LV that was received; nothing between a guard on that octet and the copy changes the source (callees, logging macros); a member reached through a synthesised inner struct (`rr->cd_now.mob_alloc_lv`) is the member of that name of struct gsm48_rr_cd",
+    "C20.R12 (result use): the results the witness fold C20.R8 obtains (return value per refusal / empty / non-empty list) are the results the callers see (same definition of the decoder); a caller's condition over the result is evaluated in the integers after conversion to the type of the local that holds it, conditions compared after an unsigned conversion or mixed with other values are left undecided (both ways kept); a local list the decoder fills is handed on only by statements that name it",
     "C20.R7 (typed word model): integer widths are those of the parse target (char 8, short 16, int 32, long long and uint64_t 64 bit, long as uint64_t's typedef shows); signed integers are two's complement, conversion to a narrower signed type wraps, >> of a negative value is arithmetic and << of a signed value wraps into the sign bit (what gcc and clang define); a shift by a negative count or by a count >= the width of the promoted left operand is undefined (C11 6.5.7) and is reported, not evaluated",
 ]
 
@@ -4223,7 +4237,8 @@ def r8_fold(L, fm, K, tier):
         if ret is None or ret is UNDEF or isinstance(ret, Ptr):
             L.__dict__.pop("_c20_outcomes", None)
             return "undecided", "%s: the decoder returns no definite value" % where
-        outcomes.setdefault((ret, ref is None, bool(ref)), where)
+        outcomes.setdefault((ret, ref is None, bool(ref)), "%d-octet bitmap %s%s" % (
+            len(ma), "".join("%02x" % x for x in ma[:9]) or "(empty)", "" if ref is None else ": %d channel%s" % (len(ref), "s"[:len(ref) != 1])))
         if ref is None:
             if ret >= 0:
                 gate = gate or "%s: accepted (return value %d)" % (where, ret)
@@ -5102,7 +5117,7 @@ def lv_fields(L, H, hdr, tier):
                 S = struct_of(strip(kids(base)[0]))
                 if not m or _SIZE1.fullmatch(m.group(1)) is None or S is None:
                     continue
-                out.setdefault((S, base.get("name")), "%s(%s, %s) in %s()" % (FN, ctext(args[1]), ctext(args[2]), fname))
+                out.setdefault((S, base.get("name")), fname)
     return out
 
 
@@ -5229,18 +5244,24 @@ def r11_lv_copies(L, tier):
             fnames = sorted({fi[0] for cp in COPY_FNS for (fi, pos, args) in cf.calls(cp)
                              if args and re.search(r"\b%s\b" % re.escape(M), args[0])})
             for fname in fnames:
-                fm = slice_of(L, H, rel, fname, hdr)
-                seen = {}
-                for (n, c) in fm.calls:
-                    if ctext(kids(c)[0]) not in COPY_FNS or len(kids(c)) < 4:
-                        continue
-                    args = kids(c)[1:]
-                    if not any(kind(x) == "MemberExpr" and x.get("name") == M for x in walk(args[0])):
-                        continue
-                    ncopies += r11_copy(L, R, fm, rel, fname, n, c, S, M, fields[(S, M)], seen)
+                # one group per function: a copy that cannot be classified in one does not hide a wrong one in another
+                k = L.stage(r11_function, L, R, H, hdr, rel, fname, S, M, fields[(S, M)])
+                ncopies += 0 if k is STAGE_FAILED else k
     L.floor(R, "copies that construct a Mobile Allocation LV buffer of the decoder's callers", ncopies, 3)
     L.assume("C20.R11: between a guard on an LV's length octet and the copy of that LV no callee / logging macro modifies the "
              "source buffer; an LV source holds 1 + L readable octets (the parsers that produce it are outside this rule)")
+
+
+def r11_function(L, R, H, hdr, rel, fname, S, M, site):
+    fm = slice_of(L, H, rel, fname, hdr)
+    seen, k = {}, 0
+    for (n, c) in fm.calls:
+        if ctext(kids(c)[0]) not in COPY_FNS or len(kids(c)) < 4:
+            continue
+        if not any(kind(x) == "MemberExpr" and x.get("name") == M for x in walk(kids(c)[1])):
+            continue
+        k += r11_copy(L, R, fm, rel, fname, n, c, S, M, site, seen)
+    return k
 
 
 def r11_copy(L, R, fm, rel, fname, n, c, S, M, site, seen):
@@ -5263,17 +5284,19 @@ def r11_copy(L, R, fm, rel, fname, n, c, S, M, site, seen):
             fname, cal, ctext(dst), doff))
     # the source LV and its length octet
     se = strip(args[1], casts=True)
-    if kind(se) == "UnaryOperator" and se.get("opcode") == "&" and kind(strip(kids(se)[0])) in ("MemberExpr", "DeclRefExpr") \
-            and "[" not in qt_of(strip(kids(se)[0])):
-        xt = canon_mem(fm.lower(strip(kids(se)[0])))
+    so = strip(kids(se)[0]) if kind(se) == "UnaryOperator" and se.get("opcode") == "&" else None
+    if so is not None and kind(so) in ("MemberExpr", "DeclRefExpr") and "[" not in qt_of(so):
+        xt = canon_mem(fm.lower(so))            # `&msg->len`: the LV starts at that octet
+        sobj, xq = so, qt_of(so)
     else:
         sp = field_ptr(fm, se)
         if sp is None or sp[1] < 0:
             raise AnalysisError("%s(): source `%s` of the copy into `%s` is not `buffer + constant` (unclassifiable)" % (
                 fname, ctext(args[1])[:50], ctext(dst)))
         xt = ("idx", canon_mem(fm.lower(sp[0])), X.C(sp[1]))
-    xq = qt_of(strip(kids(se)[0])) if kind(se) == "UnaryOperator" else re.sub(r"\s*(\*|\[\d*\])$", "", qt_of(se if kind(se) != "BinaryOperator" else sp[0]))
-    if _SIZE1.fullmatch(xq.strip()) is None:
+        sobj, xq = sp[0], re.sub(r"\s*(\*|\[\d*\])$", "", qt_of(sp[0]))
+    synthesised = kind(sobj) == "MemberExpr" and sobj.get("name") == M and struct_of(strip(kids(sobj)[0])) is None
+    if _SIZE1.fullmatch(xq.strip()) is None and not synthesised:
         raise AnalysisError("%s(): source `%s` of the copy into `%s` is not made of octets (%s)" % (fname, ctext(args[1])[:50], ctext(dst), xq))
     # the size as a function of the length octet
     if not sizeof_ok(fm, args[2]):
@@ -5307,12 +5330,13 @@ def r11_copy(L, R, fm, rel, fname, n, c, S, M, site, seen):
         found = "size `%s` >= 1 + L for L in %s (guards on the length octet: %s)" % (stmt_text(args[2]), span(admitted), gtxt)
     else:
         x, sz = bad
-        lost = "bitmap octet%s %s" % ("s" if x - max(sz, 1) + 1 > 1 else "", span(list(range(max(sz, 1), x + 1))))
-        found = "size `%s` is %d for L = %d: %s of the LV %s not copied -- the decoder reads bit indexes 0..%d (the first " \
+        lost = list(range(max(sz, 1), x + 1))
+        found = "size `%s` is %d for L = %d: bitmap octet%s of the LV %s not copied -- the decoder reads bit indexes 0..%d (the first " \
                 "cell-allocation channels) from what `%s` held before" % (
-                    stmt_text(args[2]), sz, x, lost, "is" if x - max(sz, 1) + 1 == 1 else "are", 8 * (x - max(sz, 1) + 1) - 1, ctext(dst))
-    L.ob(R, rel, fname, "copy of a Mobile Allocation LV into `%s` from `%s`%s (decoded later by %s): the length octet and all L bitmap "
-         "octets the decoder reads are copied" % (ctext(dst), ctext(args[1]), " (#%d)" % k if k > 1 else "", site),
+                    stmt_text(args[2]), sz, x, " %d" % lost[0] if len(lost) == 1 else "s %d..%d" % (lost[0], lost[-1]),
+                    "is" if len(lost) == 1 else "are", 8 * len(lost) - 1, ctext(dst))
+    L.ob(R, rel, fname, "copy of a Mobile Allocation LV into `%s` from `%s`%s (%s() hands that member to %s): the length octet and all L "
+         "bitmap octets the decoder reads are copied" % (ctext(dst), ctext(args[1]), " (#%d)" % k if k > 1 else "", site, FN),
          "size >= 1 + L for every admitted L in 1..%d" % MAXLEN, found, bad is None, fm.line(c))
     return 1
 
@@ -5396,7 +5420,7 @@ def r12_result(L, sl, tier):
             for (n, c) in fm.calls:
                 if ctext(kids(c)[0]) == FN:
                     nsites += 1
-                    r12_site(L, R, fm, rel, fname, n, c, outs, how)
+                    L.stage(r12_site, L, R, fm, rel, fname, n, c, outs, how)
     L.floor(R, "call sites of %s whose use of the result was resolved" % FN, nsites, 2)
     L.floor(R, "distinct results of the decoder the callers' tests are decided for (refusal, empty list, non-empty list)", len(outs), 3)
 
@@ -5415,12 +5439,35 @@ def r12_site(L, R, fm, rel, fname, n, c, outs, how):
     if len(args) != 6:
         raise AnalysisError("call of %s() in %s() with %d arguments" % (FN, fname, len(args)))
     where = "call of %s() in %s()" % (FN, fname)
+    ctxt = ctext(c)
+
+    def show(e):
+        return stmt_text(e).replace(ctxt, "%s(...)" % FN)[:70]
     # ---- how the result is taken
-    rc, wdef = None, None
+    rc, wdef, asg = None, None, None
     top = n.ast if n.kind == "stmt" else getattr(n, "cond", None)
+    par = fm.parent(c)
+    while par is not None and kind(par) == "CStyleCastExpr":
+        par = fm.parent(par)
     if n.kind == "stmt" and strip(top, casts=True) is c:
         mode = "discarded"
-    elif n.kind == "cond" and isinstance(n.succ[0][1], bool) and _mentions(top, node=c):
+    elif n.kind == "stmt" and kind(top) == "ReturnStmt" and kids(top) and strip(kids(top)[0], casts=True) is c:
+        # a wrapper: what its callers do with the value is not followed
+        L.ob(R, rel, fname, "%s: a bitmap that decodes to a non-empty list is not handled exactly like a refused bitmap while another "
+             "decoded result is handled differently" % where, "non-empty lists are not treated as refusals",
+             "the result is returned to the callers of %s() (not followed); the list goes to %s whatever the return value" % (
+                 fname, " / ".join("`%s`" % ctext(a) for a in args[3:5])), True, fm.line(c))
+        return
+    elif n.kind == "cond" and par is not None and kind(par) == "BinaryOperator" and par.get("opcode") == "=" and \
+            strip(kids(par)[1], casts=True) is c and kind(strip(kids(par)[0])) == "DeclRefExpr":
+        # `if ((rc = decoder(...)) < 0)`: the assignment is the tested value
+        v = strip(kids(par)[0]).get("referencedDecl", {}).get("name")
+        ws = [w for w in fm.writes.get(v, []) if w.node is n and w.ast is par]
+        if len(ws) != 1 or v not in fm.locals or v in fm.dups or v in fm.addr:
+            raise AnalysisError("%s: the result is passed on in a way the rule cannot follow (`%s`)" % (where, show(top)))
+        rc, wdef, asg = v, ws[0], par
+        mode = "assigned to `%s` inside the condition" % rc
+    elif n.kind == "cond" and _mentions(top, node=c):
         mode = "tested in place"
     else:
         for v, ws in fm.writes.items():
@@ -5428,7 +5475,7 @@ def r12_site(L, R, fm, rel, fname, n, c, outs, how):
                 if w.node is n and w.val is not None and strip(w.val, casts=True) is c and w.how in ("init", "assign"):
                     rc, wdef = v, w
         if rc is None or rc not in fm.locals or rc in fm.dups or rc in fm.addr:
-            raise AnalysisError("%s: the result is passed on in a way the rule cannot follow (`%s`)" % (where, stmt_text(top)[:60] if top is not None else "?"))
+            raise AnalysisError("%s: the result is passed on in a way the rule cannot follow (`%s`)" % (where, show(top) if top is not None else "?"))
         mode = "held in `%s`" % rc
     it = int_type(fm.tu, fm.locals[rc].get("type", {})) if rc else (32, True)
     if it is None:
@@ -5441,61 +5488,67 @@ def r12_site(L, R, fm, rel, fname, n, c, outs, how):
     leaf = X.V(rc) if rc else canon_mem(fm.lower(c))
 
     def bound(q):
-        """condition node q tests the result of this call: True / False (another value) -- mixed: error"""
+        """condition node q tests the result of this call: True / False (it does not) / None (on some ways only)"""
         e = getattr(q, "cond", None)
         if e is None:
             return False
-        if rc is None:
+        if rc is None or (asg is not None and q is n):
             return q is n
         if not _mentions(e, name=rc):
             return False
         defs = fm.reaching_defs(rc, q)
         if all(d is wdef for d in defs):
             return True
-        if all(d is not wdef for d in defs):
-            return False
-        raise AnalysisError("%s: `%s` holds the result on some ways to `%s` only" % (where, rc, ctext(e)[:50]))
+        return False if all(d is not wdef for d in defs) else None
 
     def unsigned_cast(e):
         for x in walk(e):
             if kind(x) in ("ImplicitCastExpr", "CStyleCastExpr") and x.get("castKind") in ("IntegralCast", None):
                 tt = int_type(fm.tu, x.get("type", {}))
                 if tt is not None and not tt[1] and (_mentions(x, name=rc) if rc else _mentions(x, node=c)):
-                    return x.get("type", {}).get("qualType")
-        return None
+                    return True
+        return False
 
-    tests = []
+    tests, open_tests = [], []
 
     def reach(o):
+        """CFG nodes that can follow the call when it returns o["ret"]: conditions over the result are decided, all others
+        keep both ways -> (node ids, binding, exact); exact is False when a condition over the result could not be
+        decided (it keeps both ways, so the set can only be too large)"""
         m = {leaf: conv(o["ret"])}
-        seen, work = set(), [n]
-        first = True
+        seen, work, exact = set(), [(n, True)], True
         while work:
-            q = work.pop()
-            if q.id in seen and not first:
-                continue
+            q, first = work.pop()
             if not first:
+                if q.id in seen:
+                    continue
                 seen.add(q.id)
             nxt = [s for (s, _) in q.succ]
-            if (not first or q.kind == "cond") and bound(q):
-                if q.kind != "cond" or not all(isinstance(l, bool) for (_, l) in q.succ):
-                    raise AnalysisError("%s: the result selects a %s (`%s`): only if / loop conditions are folded" % (where, q.kind, ctext(q.cond)[:40]))
-                u = unsigned_cast(q.cond)
-                if u:
-                    raise AnalysisError("%s: `%s` compares the result after a conversion to %s (wrap-around not modelled)" % (where, ctext(q.cond)[:50], u))
-                try:
-                    t = canon_mem(fm.lower(q.cond))
-                except AnalysisError as e:
-                    raise AnalysisError("%s: condition `%s` on the result is not understood (%s)" % (where, ctext(q.cond)[:50], e))
-                v = eval3(t, m)
+            b = bound(q) if (not first or q.kind == "cond") else False
+            if b is None:
+                exact = False
+            elif b:
+                v = None
+                if q.kind == "cond" and all(isinstance(l, bool) for (_, l) in q.succ) and not unsigned_cast(q.cond):
+                    try:
+                        if asg is not None and q is n:
+                            fm.LW.env[ctext(asg)] = leaf
+                        v = eval3(canon_mem(fm.lower(q.cond)), m)
+                    except AnalysisError:
+                        v = None
+                    finally:
+                        if asg is not None:
+                            fm.LW.env.pop(ctext(asg), None)
                 if v is None:
-                    raise AnalysisError("%s: condition `%s` mixes the result with other values (unclassifiable)" % (where, ctext(q.cond)[:60]))
-                if stmt_text(q.cond) not in tests:
-                    tests.append(stmt_text(q.cond))
-                nxt = [s for (s, l) in q.succ if l == bool(v)]
-            first = False
-            work += [s for s in nxt if s.id not in seen]
-        return seen, m
+                    exact = False
+                    if show(q.cond) not in open_tests:
+                        open_tests.append(show(q.cond))
+                else:
+                    if show(q.cond) not in tests:
+                        tests.append(show(q.cond))
+                    nxt = [s for (s, l) in q.succ if l == bool(v)]
+            work += [(s, False) for s in nxt if s.id not in seen]
+        return seen, m, exact
 
     # ---- the decoder's output objects at this site
     objs = []
@@ -5509,96 +5562,120 @@ def r12_site(L, R, fm, rel, fname, n, c, outs, how):
             raise AnalysisError("%s: output argument `%s` is not an object the rule can name" % (where, ctext(a)[:40]))
         objs.append(sp[0])
     otext = [ctext(x) for x in objs]
+    onames = " / ".join("`%s`" % t for t in otext)
 
     def reads(q):
-        if q is n:
-            return []
-        hit = []
-        for e in fm.exprs_of(q):
-            for x in walk(e):
-                if kind(x) in ("MemberExpr", "DeclRefExpr") and ctext(x) in otext and ctext(x) not in hit:
-                    hit.append(ctext(x))
-        return hit
+        return q is not n and any(kind(x) in ("MemberExpr", "DeclRefExpr") and ctext(x) in otext for e in fm.exprs_of(q) for x in walk(e))
     byid = {q.id: q for q in fm.g.nodes}
-    if mode == "discarded":
-        R_all = fm.reach_succ(n)
-        sig = None
-    else:
+    R_all = fm.reach_succ(n)
+    sig = None
+    if mode != "discarded":
         sig = []
         for o in outs:
-            seen, m = reach(o)
+            seen, m, exact = reach(o)
             cons = set()
             for i in seen:
                 q = byid[i]
                 if reads(q):
-                    cons.add(("read", i))
+                    cons.add(("read", i, None))
                 if q.kind == "stmt" and q.ast is not None and kind(q.ast) == "ReturnStmt":
                     ks = kids(q.ast)
                     val = None
-                    if ks and rc and _mentions(ks[0], name=rc) and all(d is wdef for d in fm.reaching_defs(rc, q)):
+                    if ks and rc and _mentions(ks[0], name=rc) and any(d is wdef for d in fm.reaching_defs(rc, q)):
                         try:
-                            val = eval3(canon_mem(fm.lower(ks[0])), m)
+                            val = eval3(canon_mem(fm.lower(ks[0])), m) if all(d is wdef for d in fm.reaching_defs(rc, q)) else None
                         except AnalysisError:
                             val = None
                         if val is None:
-                            raise AnalysisError("%s: `%s` forwards the result in a way the rule cannot fold" % (where, ctext(q.ast)[:50]))
+                            exact = False
                     cons.add(("ret", i, val))
-            sig.append((o, seen, frozenset(cons)))
-        R_all = fm.reach_succ(n)
-    ttxt = ("`%s`" % "`, `".join(tests)) if tests else "no condition"
+            sig.append((o, seen, frozenset(cons), exact))
+    ttxt = ("`%s`" % "`, `".join(tests)) if tests else "no condition over the result"
+    if open_tests:
+        ttxt += " (not decided: `%s`)" % "`, `".join(open_tests)
 
     def fmt_o(o):
         return "return value %d (%s)" % (o["ret"], o["where"])
+
+    def node_text(q):
+        if q.kind == "stmt" and kind(q.ast) == "ReturnStmt":
+            return "`return %s`" % (show(kids(q.ast)[0]) if kids(q.ast) else "")
+        return "`%s`" % show(q.ast if q.kind == "stmt" else q.cond)
     # ---- (b) a list decoded into the caller's own locals must be read for every non-empty result
-    local_out = [x for x in objs if kind(x) == "DeclRefExpr" and x.get("referencedDecl", {}).get("name") in fm.locals
-                 and x.get("referencedDecl", {}).get("name") not in fm.dups]
-    for x in local_out:
-        nm = x.get("referencedDecl", {}).get("name")
-        users = [q for q in fm.g.nodes if q is not n and any(_mentions(e, name=nm) for e in fm.exprs_of(q))
-                 and not (q.ast is not None and any(kind(y) == "VarDecl" and y.get("name") == nm for y in walk(q.ast)))]
-        if any(q.id not in R_all for q in users):
-            raise AnalysisError("%s: the local `%s` that receives the decoder's output is also used outside the ways that follow the call "
-                                "(aliasing not modelled)" % (where, nm))
-        if not users:
-            raise AnalysisError("%s: the local `%s` that receives the decoder's output is never read: the call is not one that hands the list on "
-                                "(unclassifiable)" % (where, nm))
-        bad = None
+    local_out = [x.get("referencedDecl", {}).get("name") for x in objs if kind(x) == "DeclRefExpr" and
+                 x.get("referencedDecl", {}).get("name") in fm.locals and x.get("referencedDecl", {}).get("name") not in fm.dups]
+    dropped = None
+    if local_out:
+        users = {}
+        for nm in local_out:
+            us = [q for q in fm.g.nodes if q is not n and any(_mentions(e, name=nm) for e in fm.exprs_of(q))
+                  and not (q.ast is not None and any(kind(y) == "VarDecl" and y.get("name") == nm for y in walk(q.ast)))]
+            for q in us:
+                if q.id not in R_all and not _only_fills(fm, q, nm):
+                    raise AnalysisError("%s: the local `%s` that receives the decoder's output is used in front of the call (`%s`): "
+                                        "aliasing not modelled" % (where, nm, show(q.ast if q.kind == "stmt" else q.cond)))
+            users[nm] = [q for q in us if q.id in R_all]
+            if not users[nm]:
+                raise AnalysisError("%s: the local `%s` that receives the decoder's output is never read: the call is not one that hands the "
+                                    "list on (unclassifiable)" % (where, nm))
         if sig is not None:
-            for (o, seen, cons) in sig:
-                if not o["refused"] and o["nonempty"] and not any(q.id in seen for q in users):
-                    bad = o
-                    break
-        L.ob(R, rel, fname, "%s decodes into the caller's local `%s` (result %s): for every bitmap that decodes to a non-empty list a "
-             "statement reading `%s` stays reachable behind the tests of the result" % (where, nm, mode, nm),
-             "`%s` is read for every non-empty list" % nm,
-             "`%s` is read for every non-empty list (%s decided for %d results from the %s)" % (nm, ttxt, len(outs), how) if bad is None else
+            for (o, seen, cons, exact) in sig:
+                if not o["refused"] and o["nonempty"] and dropped is None:
+                    for nm in local_out:
+                        if not any(q.id in seen for q in users[nm]):       # `seen` can only be too large: the readers are excluded for sure
+                            dropped = (o, nm)
+                            break
+        lo = " / ".join("`%s`" % x for x in local_out)
+        L.ob(R, rel, fname, "%s decodes into the caller's own %s: for every bitmap that decodes to a non-empty list a statement reading "
+             "them stays reachable behind the caller's tests of the result" % (where, lo),
+             "read for every non-empty list",
+             "read for every non-empty list (result %s; %s decided for %d results from the %s)" % (mode, ttxt, len(outs), how) if dropped is None else
              "%s: %s excludes every statement that reads `%s` (%s) -- the decoded list is thrown away" % (
-                 fmt_o(bad), ttxt, nm, ", ".join("`%s`" % stmt_text(q.ast if q.kind == "stmt" else q.cond)[:60] for q in users[:2])),
-             bad is None, fm.line(c))
+                 fmt_o(dropped[0]), ttxt, dropped[1], ", ".join(node_text(q) for q in users[dropped[1]][:2])),
+             dropped is None, fm.line(c))
+    if dropped is not None:
+        return          # (a) would report the same defect once more
     # ---- (a) a non-empty list is not handled like a refusal while another decoded result is handled differently
     bad = None
+    nopen = 0
     if sig is not None:
-        ref = [s for s in sig if s[0]["refused"]]
-        dec = [s for s in sig if not s[0]["refused"]]
+        nopen = sum(1 for s0 in sig if not s0[3])
+        ref = [s0 for s0 in sig if s0[0]["refused"] and s0[3]]
+        dec = [s0 for s0 in sig if not s0[0]["refused"] and s0[3]]
         for s1 in dec:
             if not s1[0]["nonempty"] or bad:
                 continue
+            other = [s2 for s2 in dec if s2[2] != s1[2]]
             for s0 in ref:
-                other = [s2 for s2 in dec if s2[2] != s1[2]]
                 if s0[2] == s1[2] and other:
-                    diff = sorted(i for (i,) in {(x[1],) for x in other[0][2] ^ s1[2]})
-                    bad = (s1[0], s0[0], other[0][0], [byid[i] for i in diff])
+                    diff = sorted({(x[0] != "ret", x[1]) for x in other[0][2] ^ s1[2]})
+                    bad = (s1[0], s0[0], other[0][0], [byid[i] for (_, i) in diff])
                     break
-    L.ob(R, rel, fname, "%s (result %s): a bitmap that decodes to a non-empty list is not handled exactly like a refused bitmap while "
-         "another decoded result is handled differently (reachable readers of %s and reachable returns, per result)" % (
-             where, mode, " / ".join("`%s`" % t for t in otext)),
+    L.ob(R, rel, fname, "%s: a bitmap that decodes to a non-empty list is not handled exactly like a refused bitmap while another decoded "
+         "result is handled differently (per result: reachable statements reading %s, reachable returns)" % (where, onames),
          "non-empty lists are not treated as refusals",
-         ("result not tested: the list goes to %s whatever the return value" % " / ".join("`%s`" % t for t in otext)) if sig is None else
-         ("%s decided for %d results from the %s: consistent" % (ttxt, len(outs), how)) if bad is None else
+         ("result not tested: the list goes to %s whatever the return value" % onames) if sig is None else
+         ("result %s; %s decided for %d results from the %s%s: consistent" % (
+             mode, ttxt, len(outs), how, " (%d left open)" % nopen if nopen else "")) if bad is None else
          "%s is handled exactly like the refusal, %s, but unlike %s: %s decides %s" % (
-             fmt_o(bad[0]), fmt_o(bad[1]), fmt_o(bad[2]), ttxt,
-             ", ".join("`%s`" % stmt_text(q.ast if q.kind == "stmt" else q.cond)[:60] for q in bad[3][:3])),
+             fmt_o(bad[0]), fmt_o(bad[1]), fmt_o(bad[2]), ttxt, ", ".join(node_text(q) for q in bad[3][:3])),
          bad is None, fm.line(c))
+
+
+def _only_fills(fm, q, nm):
+    """statement q only initialises the local array `nm` (memset / bzero / memcpy into it, element store): no alias is made"""
+    a = strip(q.ast, casts=True) if q.kind == "stmt" and q.ast is not None else None
+    if a is None:
+        return False
+    if kind(a) == "CallExpr" and ctext(kids(a)[0]) in ("memset", "bzero", "__builtin_memset") + COPY_FNS:
+        args = kids(a)[1:]
+        d = strip(args[0], casts=True) if args else None
+        return d is not None and kind(d) == "DeclRefExpr" and d.get("referencedDecl", {}).get("name") == nm and \
+            not any(_mentions(x, name=nm) for x in args[1:] if kind(strip(x)) != "UnaryExprOrTypeTraitExpr")
+    if kind(a) == "BinaryOperator" and a.get("opcode") == "=":
+        l, r = kids(a)
+        return fm.store_base(l) == nm and kind(strip(l)) == "ArraySubscriptExpr" and not _mentions(r, name=nm)
+    return False
 
 
 # ================================================================= call sites
